@@ -2,6 +2,7 @@ mod core_mp;
 mod core_pp;
 mod crash;
 mod db;
+mod image;
 mod iohook;
 mod util;
 
@@ -51,6 +52,11 @@ fn main() {
             let scale: usize = arg(&args, "--scale").and_then(|s| s.parse().ok()).unwrap_or(1);
             db::run(seed, cases, &mut sink, &focus, nops, big, scale)
         }
+        "image" => {
+            let only: Option<usize> = arg(&args, "--only").and_then(|s| s.parse().ok());
+            image::run(seed, cases, &mut sink, &outdir, only)
+        }
+        "image-leak" => image::scenario_leak(&mut sink, &outdir),
         _ => {
             eprintln!("usage: vharness <core-pp|core-mp> --seed S --cases N --out DIR");
             std::process::exit(2);
